@@ -36,8 +36,8 @@ func vBaseContent(subjectVal, issuer string, serial int64, uid []byte, static bo
 // profile name, or - for a validity without `from` - on when the
 // configuration was read.
 func vhHashInsensitive() {
-	sv := vPlain("subject", 2)
-	iss := vPlain("issuer", 2)
+	sv := vPlain("subject", vParam("VLEN", 2))
+	iss := vPlain("issuer", vParam("VLEN", 2))
 	serial := vInt64("serial", 0, 9)
 	static := vChoose("static", 2) == 1
 	t1, t2 := time.Unix(1709640000, 0).UTC(), time.Unix(1709726400, 0).UTC()
@@ -58,13 +58,13 @@ func vhHashInsensitive() {
 // vhHashSensitive: C13 second sentence, by self-composition: one edit that
 // changes the generated certificate must change the hash.
 func vhHashSensitive() {
-	sv := vPlain("subject", 2)
-	iss := vPlain("issuer", 2)
+	sv := vPlain("subject", vParam("VLEN", 2))
+	iss := vPlain("issuer", vParam("VLEN", 2))
 	t1, t2 := time.Unix(1709640000, 0).UTC(), time.Unix(1809640000, 0).UTC()
 	t3 := time.Unix(1909640000, 0).UTC()
 	raw := "!binary:" + vB64([]byte{1, 2})
 	ku := KeyUsage{Content: []string{DigitalSignature}, Critical: true}
-	san := SubjectAltName{Content: []SubjAltNameComponent{{Type: "dns", Name: vPlain("san", 2)}}}
+	san := SubjectAltName{Content: []SubjAltNameComponent{{Type: "dns", Name: vPlain("san", vParam("VLEN", 2))}}}
 	bc := BasicConstraints{Raw: raw}
 	exts := []config.ExtensionConfig{ku, san, bc}
 	uid := []byte{7, 7}
@@ -74,13 +74,13 @@ func vhHashSensitive() {
 	edit := vChoose("edit", 20)
 	switch edit {
 	case 0:
-		o := vPlain("subject2", 2)
+		o := vPlain("subject2", vParam("VLEN", 2))
 		vAssume(!vStrEq(o, sv))
 		c2.Subject = pkix.RDNSequence{pkix.RelativeDistinguishedNameSET{pkix.AttributeTypeAndValue{Type: asn1.ObjectIdentifier{2, 5, 4, 3}, Value: o}}}
 	case 1:
 		c2.Subject = pkix.RDNSequence{pkix.RelativeDistinguishedNameSET{pkix.AttributeTypeAndValue{Type: asn1.ObjectIdentifier{2, 5, 4, 10}, Value: sv}}}
 	case 2:
-		o := vPlain("issuer2", 2)
+		o := vPlain("issuer2", vParam("VLEN", 2))
 		vAssume(!vStrEq(o, iss))
 		c2.Issuer = o
 	case 3:
@@ -111,7 +111,7 @@ func vhHashSensitive() {
 	case 13:
 		c2.Extensions[0] = KeyUsage{Content: []string{DigitalSignature, CRLSign}, Critical: true}
 	case 14:
-		o := vPlain("san2", 2)
+		o := vPlain("san2", vParam("VLEN", 2))
 		vAssume(!vStrEq(o, san.Content[0].Name))
 		c2.Extensions[1] = SubjectAltName{Content: []SubjAltNameComponent{{Type: "dns", Name: o}}}
 	case 15:
@@ -181,4 +181,66 @@ func vhHashManipulations() {
 	}
 	vReach("edited")
 	vAssert(!vBytesEq(c1.HashSum(), c2.HashSum()), "a manipulation edit leaves the configuration hash unchanged")
+}
+
+// vhHashProfileEdit: C13 for edits made in the *profile*: the hash is taken
+// over the effective (merged) configuration, so an edit of the profile's
+// static validity (from / until) or of an inherited extension's content
+// (symbolic bytes) changes the hash of a certificate that takes these from the profile,
+// while renaming the profile does not.
+func vhHashProfileEdit() {
+	vClockFixed(1709640000)
+	vLocalZone(0)
+	// concrete days: the hash input is the RFC 3339 text of the instants, and
+	// deciding that two such texts differ for symbolic digits needs the solver
+	// to invert the calendar arithmetic (seed-dependent, minutes to never)
+	d1, d2 := "15", "16"
+	a1 := vPlain("dns1", 2)
+	a2 := vPlain("dns2", 2)
+	vAssume(a1 != a2)
+	mk := func(name, from, until, dns string) *config.CertificateProfile {
+		p, err := initProfile(Profile{ProfileName: name, Version: 1, Validity: CertValidity{From: from, Until: until},
+			Extensions: []AnyExtension{{SubjectAltName: &SubjectAltName{Content: []SubjAltNameComponent{{Type: "dns", Name: dns}}}}}})
+		vAssert(err == nil && p != nil, "initProfile rejected a valid profile")
+		return p
+	}
+	content, err := initCertificate(CertConfig{Subject: "CN=a", SerialNumber: 5, Profile: "p"})
+	vAssert(err == nil && content != nil, "initCertificate failed")
+	if err != nil || content == nil {
+		return
+	}
+	base := mk("p", "2027-01-"+d1, "2029-03-"+d1, a1)
+	edit := vChoose("edit", 4)
+	var other *config.CertificateProfile
+	switch edit {
+	case 0:
+		other = mk("p", "2027-01-"+d1, "2029-03-"+d2, a1) // until
+	case 1:
+		other = mk("p", "2027-01-"+d2, "2029-03-"+d1, a1) // from
+	case 2:
+		other = mk("p", "2027-01-"+d1, "2029-03-"+d1, a2) // inherited extension content (symbolic bytes)
+	default:
+		other = mk("q", "2027-01-"+d1, "2029-03-"+d1, a1) // only the profile's name
+		content2 := *content
+		content2.Profile = "q"
+		m1, e1 := config.Merge(*base, *content)
+		m2, e2 := config.Merge(*other, content2)
+		vAssert(e1 == nil && e2 == nil, "Merge failed")
+		if e1 == nil && e2 == nil {
+			vReach("renamed")
+			vAssert(vBytesEq(m1.HashSum(), m2.HashSum()), "renaming the profile changed the configuration hash")
+		}
+		return
+	}
+	if base == nil || other == nil {
+		return
+	}
+	m1, e1 := config.Merge(*base, *content)
+	m2, e2 := config.Merge(*other, *content)
+	vAssert(e1 == nil && e2 == nil, "Merge failed")
+	if e1 != nil || e2 != nil {
+		return
+	}
+	vReach("edited")
+	vAssert(!vBytesEq(m1.HashSum(), m2.HashSum()), "an edit of the profile that changes the generated certificate left the configuration hash unchanged")
 }
